@@ -1,2 +1,90 @@
-// Package c11: check for property C11 (see /verif/DESIGN.md §3 C11).
+// Package c11: record-selecting verbs only select (property C11, see
+// /verif/DESIGN.md §3 C11). Bounded exhaustive enumeration of record streams x
+// verb parameters through the real command line, in-process, against a
+// list-algebra reference (model.go) and the property's laws.
 package c11
+
+import (
+	"fmt"
+	"sort"
+	"strings"
+
+	"verif/harness/vf"
+)
+
+func init() {
+	vf.Register(&vf.CheckDef{ID: "C11", Level: "model_checking", Run: run,
+		Workers: map[string]vf.WorkerFunc{"ids": idWorker, "anon": anonWorker, "comma": commaWorker}})
+}
+
+var anchoredVerbs = []string{"head", "tail", "decimate", "filter", "grep", "having-fields", "sample", "bootstrap", "shuffle", "tac",
+	"group-by", "group-like", "uniq", "cat", "nothing", "skip-trivial-records"}
+
+func run(c *vf.Ctx) {
+	b := idBoundsFor(c.Quick())
+	c.Rule = fmt.Sprintf("case = (record stream, verb + parameters), all pairs distinct by construction and run through the real CLI in-process. "+
+		"ids pass: every DKVP stream of N records (unique number-like id per record) with g in {a,b,absent} x x in {1,empty,absent} per record for N<=%d (9^N) and every g pattern for N<=%d (3^N, x cycling); "+
+		"on each: head/tail -n k for EVERY k in -(N+1)..N+1, tail -n +k for k in 0..N+2, with and without -g (and --records-per-batch 1), decimate -n 1..N+1 and default x {default,-b,-e} x -g, "+
+		"%d filter expressions x {-,-x}, %d grep patterns x -i x -a x -v, %d having-fields configurations, sample -k 0..N+1 x -g x 3 seeds, bootstrap, shuffle, tac, tac then tac, group-by (4 lists), group-like, uniq -a [-c|-n], cat [-n|-N] [-g], nothing, skip-trivial-records. "+
+		"anon pass: every JSON-Lines stream of N<=%d records without ids over 9 shapes (incl. {} and repeats). comma pass: every stream of N<=%d records over 4 (g,h) value pairs containing ',' and 3 key shapes containing ','. "+
+		"distinct_nontrivial counts the cases whose required selection is neither empty nor the whole input unchanged.",
+		b.fullN, b.maxN, len(filterCases), len(grepPatterns), len(idHFCases), anonMaxN(c.Quick()), commaMaxN(c.Quick()))
+
+	c.Assume("records lacking a -g / group-by field belong to no group and are not output by head/tail/decimate/sample/group-by (property: 'group sizes sum to the number of records having the group-by fields'); cat -n -g passes them with a counter whose value is not asserted")
+	c.Assume("order ACROSS groups is not asserted for tail -n k -g, head -n -k -g and sample -g (usage texts fix none); the set, and the input order within each group, are")
+	c.Assume("not documented, so only 'selects input records, none twice' is asserted: tail -n with a negative count, tail -n +0; head -n +k is not run (spelling not in head's usage)")
+	c.Assume("decimate -b: whether the first record of a trailing incomplete bunch is printed is not asserted; decimate -b together with -e is not run")
+	c.Assume("filter: for $x==1 and $x>0 the cell 'x is empty' is not asserted (comparison of empty with a number); compound expressions are checked by the partition law only; a filter value that is neither boolean nor absent is outside the property (must only not panic)")
+	c.Assume("sample/bootstrap/shuffle: multiset laws only (sizes, membership, no repeats for sample/shuffle) under --seed 1..3; which records are drawn, and their order, are free; statistical uniformity is out of reach")
+	c.Assume("uniq -a -c: the count field may be first or last (usage does not say); records are the same when their ordered key/value lists and JSON types are the same; records differing only in field order are not enumerated")
+	c.Assume("grep and having-fields regexes are evaluated in the reference with Go's regexp (the documented regex dialect) on the line the grep usage describes (DKVP, or values only with -a, joined by ',')")
+	c.Assume("'unchanged' = the whole output line equals the input record's line byte for byte (DKVP), or equals what `mlr cat` prints for that record alone (JSON Lines passes)")
+	c.Assume("streaming latency (when a verb emits) is not observed: verbs are driven through the CLI, outputs compared at end of stream; batch sizes other than 500 and 1 are C04's business")
+	c.Assume(fmt.Sprintf("having-fields with a name listed twice (g,g) is enumerated on streams of at most %d records only (key group 'duplist'); uniq -d/-u do not exist in this tree (only count-distinct -u) and are not run", dupListMaxN))
+	c.Assume("streams longer than the bound, more than two distinct group values, and formats other than DKVP / JSON Lines are not explored")
+
+	r1 := c.RunPool(vf.PoolSpec{Worker: "ids", Shards: 128})
+	r2 := c.RunPool(vf.PoolSpec{Worker: "anon", Shards: 64})
+	c.RunPool(vf.PoolSpec{Worker: "comma", Shards: 16})
+
+	// evidence: hit counts per verb / flag / parameter class / alphabet symbol
+	groups := map[string]map[string]int64{}
+	for k, v := range c.Counters {
+		if i := strings.IndexByte(k, ':'); i > 0 {
+			g := k[:i]
+			if groups[g] == nil {
+				groups[g] = map[string]int64{}
+			}
+			groups[g][k[i+1:]] = v
+		}
+	}
+	for g, m := range groups {
+		c.Extra["hits_"+g] = m
+		for k := range m {
+			delete(c.Counters, g+":"+k)
+		}
+	}
+	for _, v := range anchoredVerbs {
+		if groups["verb"][v] == 0 {
+			c.Broken("verb %s was never exercised", v)
+		}
+	}
+	for _, sym := range []string{"g=a", "g=b", "g=absent", "x=1", "x=empty", "x=absent", "record {}", "record with only empty values"} {
+		if groups["symbol"][sym] == 0 {
+			c.Broken("alphabet symbol %s was never exercised", sym)
+		}
+	}
+	outcomes := vf.SortedSet(r1, "outcomes")
+	c.Extra["distinct_outcome_classes_ids"] = outcomes
+	c.Extra["distinct_outcome_classes_anon"] = vf.SortedSet(r2, "outcomes")
+	if len(outcomes) < 4 {
+		c.Broken("only %d outcome classes seen: %v", len(outcomes), outcomes)
+	}
+	var dom []string
+	for k, v := range groups["domain"] {
+		dom = append(dom, fmt.Sprintf("%s=%d", k, v))
+	}
+	sort.Strings(dom)
+	c.Extra["domain_predicate_sides"] = dom
+	c.Extra["bounds"] = map[string]int{"ids_fullN": b.fullN, "ids_maxN": b.maxN, "anon_maxN": anonMaxN(c.Quick()), "comma_maxN": commaMaxN(c.Quick())}
+}
